@@ -23,11 +23,11 @@ Proof.
   - four; [apply rt_TBool|apply em_TBool|apply fw_TBool|apply ad_TBool].
   - intros; four; [apply rt_TInt|apply em_TInt|apply fw_TInt|apply ad_TInt].
   - intros; four; [apply rt_TReal|apply em_TReal|apply fw_TReal|apply ad_TReal].
-  - four; [intros H; discriminate H|now apply em_trivial|now apply fw_none|now apply ad_none].
+  - four; [apply rt_TDateTime|apply em_TDateTime|apply fw_TDateTime|apply ad_TDateTime].
   - intros; four; [apply rt_TStr|apply em_TStr|now apply fw_none|now apply ad_none].
   - four; [apply rt_TStringN|apply em_TStringN|now apply fw_none|now apply ad_none].
   - four; [apply rt_TStringI|apply em_TStringI|now apply fw_none|now apply ad_none].
-  - intros; four; [apply rt_TNBytes|now apply em_trivial|now apply fw_none|now apply ad_none].
+  - intros; four; [apply rt_TNBytes|apply em_TNBytes|apply fw_TNBytes|apply ad_TNBytes].
   - intros; four; [apply rt_TBits|apply em_TBits|apply fw_TBits|apply ad_TBits].
   - intros n e (Hrt & Hem & Hfw & Had).
     four; [now apply rt_TArrFixed|now apply em_TArrFixed|now apply fw_TArrFixed|now apply ad_TArrFixed].
@@ -125,7 +125,39 @@ Theorem struct_dict_positional ms kvs :
 Proof.
   intros Hk Hnd. cbn [encode]. unfold struct_encode, pub_encode. f_equal.
   cbn [struct_encode_inner py_iter bind].
+  assert (Hlen : length (map snd kvs) = length ms).
+  { rewrite map_length. rewrite <- (map_length fst kvs), Hk. apply map_length. }
+  rewrite Hlen, map_length, Nat.ltb_irrefl.
   apply (struct_dict_positional_gen _ [] kvs).
   - rewrite map_map. cbn [fst]. exact Hk.
   - cbn [app]. rewrite <- Hk in Hnd. now apply keys_nodup_dkeys.
+Qed.
+
+(* Array(<length type>, T): encode writes NO length prefix (documented), so decode (encode v) is not
+   v; what holds is the documented decode: the count, encoded with the length type, followed by the
+   encoding, decodes to the value and leaves what follows untouched. *)
+Theorem roundtrip_prefixed inst lsg lw e l rest :
+  (0 < lw)%nat -> is_bits e = false -> wf_ty (TArrFixed (length l) e) = true ->
+  in_dom (TArrFixed (length l) e) (VList l) = true ->
+  int_in_range lsg lw (zlen l) = true -> zlen l <= count_limit ->
+  exists p bs, encode (TInt lsg lw) (VInt (zlen l)) = Ok p
+               /\ encode (TArrPrefix inst (TInt lsg lw) e) (VList l) = Ok bs
+               /\ decode (TArrPrefix inst (TInt lsg lw) e) (p ++ bs ++ rest) = Ok (norm (TArrFixed (length l) e) (VList l), rest).
+Proof.
+  intros Hlw Hnb Hwf Hd Hr Hlim. destruct (prt_all e) as (Hrt & _).
+  destruct (arr_plain_form (length l) e l Hnb Hrt Hwf Hd) as (bss & Hbss & Hdd & Hlen & He).
+  rewrite firstn_all in Hbss, Hdd.
+  exists (le_enc lw (zlen l)), (concat bss). split; [|split].
+  - cbn [encode]. now apply int_encode_ok.
+  - cbn [encode]. unfold array_encode. cbn [py_len bind].
+    replace (bits_width e) with (@None nat) by (destruct e; try reflexivity; discriminate Hnb).
+    replace (Z.to_nat (zlen l)) with (length l) by (unfold zlen; lia).
+    rewrite encode_items_list by lia. cbn [skipn]. rewrite firstn_all.
+    now rewrite (enc_all_good _ _ _ Hbss Hdd).
+  - apply decode_of_fuel. cbn [decode_fuel]. unfold array_decode_prefix.
+    rewrite int_decode_ok by assumption. cbn [dbind].
+    replace (Z.to_nat (Z.min (zlen l) count_limit)) with (length l) by (unfold zlen in *; lia).
+    rewrite (decode_n_good e l bss _ rest Hbss) by (rewrite !app_length; lia).
+    destruct (count_limit <? zlen l) eqn:E; [lia|]. rewrite Hnb. cbn [array_flatten dwrap norm].
+    rewrite firstn_all. destruct e; try reflexivity. discriminate Hnb.
 Qed.
